@@ -130,7 +130,15 @@ type loopInfo struct {
 	frameSkip map[string]bool
 }
 
+// lookupHit: a comma-ok lookup on a map declared reject-on-hit; term = the lookup was reached and found its key
+type lookupHit struct {
+	name string
+	term string
+	tags []string
+}
+
 type frame struct {
+	hits      []lookupHit
 	fn        *ssa.Function
 	vals      map[ssa.Value]val
 	prov      map[ssa.Value]*lval
